@@ -383,6 +383,40 @@ def variant_sources(w, text, ctype):
     return out
 
 
+def model_reads_csv(ctx, text, tag, ref):
+    """the csv contents of this check (CR LF, lone CR, a carriage return inside a quoted field, a BOM, odd separators) through the model
+    of `from_csv` - header filter, metadata, csv state machine, DictReader (Hpv/Csv.lean, C15.file_round_trip) - against what the library
+    made of the plain path"""
+    from hpotk.algorithm.similarity import SimilarityContainer
+    lines = list(io.StringIO(text, newline=''))          # the physical lines a newline='' handle yields
+    try:
+        json.dumps(lines).encode('utf-8')
+    except UnicodeEncodeError:
+        return
+    rep = run_driver([{'op': 'sim.read_file', 'lines': lines}])[0]
+    ctx.case(['model-read', tag], True, 'csv contents through the csv model')
+    if 'error' in rep:
+        ctx.count('csv-model.rejects-input')
+        return
+    if 'err' in rep['csv'] or 'err' in rep['meta']:
+        model = ('raises', None)
+    else:
+        try:
+            c = SimilarityContainer()
+            for row in rep['csv']['rows']:
+                d = {k: v for k, v in row}
+                c.set_similarity(d['term_a'], d['term_b'], float(d['ic_mica']))
+            model = ('ok', {'items': sorted([a, b, float(v).hex()] for a, b, v in c.items()), 'meta': {k: v for k, v in rep['meta']['ok']}})
+        except Exception:  # noqa
+            model = ('raises', None)
+    same = (model[0] == ref[0]) and (model[0] == 'raises' or model[1] == ref[1])
+    ctx.count('csv-model.' + ('agrees' if same else 'differs'))
+    if not same:
+        # the model of the reader is off for this content (or the reader changed): a broken tie of C15's file theorems
+        ctx.violation(f'csv-model:{tag}', {'case': {'kind': 'reader', 'function': 'SimilarityContainer.from_csv', 'source': 'path', 'content': tag, 'gz_layout': 'single'},
+                                           'impl': str(ref)[:500], 'model': str(model)[:500], 'theorem': 'Hpv.Props.C15.file_round_trip (model of the reader)'}, no_input=True)
+
+
 def reader_product(ctx, w):
     rd = readers()
     cont = contents()
@@ -396,6 +430,8 @@ def reader_product(ctx, w):
                     if ref[0] == 'raises' and tag != 'bom':
                         ctx.violation(f'{fname}:reference-raises', {'case': {'kind': 'reader', 'function': fname, 'content': tag}, 'impl': ref[1]})
                         break
+                if layout == 'single' and ctype == 'csv':
+                    model_reads_csv(ctx, text, tag, ref)
                 for kind in (KINDS if layout == 'single' else GZ_KINDS):
                     ctx.case(['read', fname, kind, tag, layout], True, 'readers x kinds x contents x gz layouts',
                              sample={'function': fname, 'source': kind, 'content': tag, 'gz_layout': layout})
